@@ -114,6 +114,18 @@ func (v *Verifier) emit(fr *Frame, st *State, kind, clause string, goal *Term, w
 		return
 	}
 	goal = st.norm(goal)
+	// known finding on this obligation: prove it outside the recorded witness class, and keep the
+	// unrestricted obligation as a canary (expected to fail while the finding is open)
+	if f := v.findingFor(v.prop + "/" + v.curFn + "/" + clause); f != nil && !strings.HasSuffix(clause, "[unrestricted]") && f.Witness != "" {
+		we, err := parseExpr(f.Witness)
+		if err != nil {
+			fail("known_findings.json: witness of %s: %v", f.Obligation, err)
+		}
+		env := &Env{fr: fr, st: st, old: fr.entry, vars: fr.vars}
+		w := env.evalBool(we)
+		v.emit(fr, st, kind, clause+"[unrestricted]", goal, what)
+		goal = st.norm(Implies(Not(w), goal))
+	}
 	// hypotheses of an implication become assumptions (so that they inform the simplifier), and a
 	// conjunction is split into one query per conjunct
 	if goal.Op == "=>" {
@@ -332,7 +344,7 @@ func (v *Verifier) verifyFunc(ctr *Contract, fn *ssa.Function) (err error) {
 			if ctr.NoPanic {
 				v.emit(fr, o.St, "nopanic", "nopanic", False, "panic reachable: "+lastTrace(o.St))
 			}
-			penv := &Env{fr: fr, st: o.St, old: fr.entry, vars: vars, noLocals: true}
+			penv := &Env{fr: fr, st: o.St, old: fr.entry, vars: vars, noLocals: true, callRes: o.St.callRes, callArgs: o.St.callArgs}
 			for _, cl := range ctr.Clauses {
 				if cl.Kind == "ensures_on_panic" && clauseInProp(ctr, cl, v.prop) {
 					v.emit(fr, o.St, "post-panic", cl.Name, penv.evalBool(cl.Expr), cl.Src)
@@ -342,11 +354,11 @@ func (v *Verifier) verifyFunc(ctr *Contract, fn *ssa.Function) (err error) {
 		}
 		nret++
 		bindResults(vars, o.Res)
-		renv := &Env{fr: fr, st: o.St, old: fr.entry, vars: vars, noLocals: true, callRes: o.CallRes}
+		renv := &Env{fr: fr, st: o.St, old: fr.entry, vars: vars, noLocals: true, callRes: o.St.callRes, callArgs: o.St.callArgs}
 		// at-return assertions may mention source-level locals of the function
 		lfr := *fr
 		lfr.env, lfr.envAddr = o.Env, o.EnvAddr
-		lenv := &Env{fr: &lfr, st: o.St, old: fr.entry, vars: vars, callRes: o.CallRes}
+		lenv := &Env{fr: &lfr, st: o.St, old: fr.entry, vars: vars, callRes: o.St.callRes, callArgs: o.St.callArgs}
 		for _, cl := range ctr.Clauses {
 			if cl.Kind == "plet" {
 				vars[cl.Var] = renv.eval(cl.Expr)
@@ -364,13 +376,14 @@ func (v *Verifier) verifyFunc(ctr *Contract, fn *ssa.Function) (err error) {
 	}
 	// canary: at least one returning path must be reachable (ensures false must be refutable)
 	if nret > 0 {
+		n := 0
 		for _, o := range outs {
-			if !o.Panic && !o.St.dead {
+			if !o.Panic && !o.St.dead && n < 8 {
 				co := &Obligation{Prop: v.prop, Func: v.curFn, Clause: "canary", Kind: "vacuity", Goal: False, ExpectSat: true, What: "a return path is reachable (ensures false refuted)"}
 				co.Assumps = append([]*Term{}, o.St.pc...)
 				co.Trace = o.St.trace
 				v.obls = append(v.obls, co)
-				break
+				n++
 			}
 		}
 	}
